@@ -239,6 +239,17 @@ func NewRun(prop string, seed int64, tier string) (*Trace, *Gen) {
 			t.Flags = append(t.Flags, f)
 		}
 	}
+	if (prop == "C05" || prop == "C04") && g.pct(6) {
+		// whales paying whale fees: fee parameters at 2^63 and beyond together with balances and
+		// purchase orders far above 2^64, so that one transaction's fee exceeds 64 bits and is
+		// covered from locked eFUND
+		for _, f := range []string{"huge", "bigfee"} {
+			if !g.Flags[f] {
+				g.Flags[f] = true
+				t.Flags = append(t.Flags, f)
+			}
+		}
+	}
 	k := DefaultKnobs()
 	k.NActors = 8 + r.Intn(5)
 	g.N = k.NActors
@@ -279,6 +290,16 @@ func NewRun(prop string, seed int64, tier string) (*Trace, *Gen) {
 		rp := RegParams{pick(r, fees), pick(r, fees), pick(r, fees[:4]), Native, l[0], l[1]}
 		if g.Flags["bigfee"] && g.pct(50) {
 			rp.FeeReg = 1<<63 + uint64(r.Intn(1000))
+		}
+		if g.Flags["bigfee"] && g.Flags["huge"] {
+			// everybody can afford them: one storage purchase of two slots, or a registration used in
+			// the transaction that creates it, then costs more than 64 bits hold
+			if g.pct(50) {
+				rp.FeePur = 1<<63 + uint64(pick(r, []int{0, 0, r.Intn(1000)})) // 2 x 2^63 = 0 in 64 bits: "no fee"
+			}
+			if g.pct(40) {
+				rp.FeeRec = ^uint64(0) - uint64(r.Intn(3))
+			}
 		}
 		return rp
 	}
@@ -824,6 +845,10 @@ func (g *Gen) setFee(w *World, ts *TxSpec) {
 			fee = gf
 			w.Fault("fee.per_proposed_params")
 		}
+	} else if fee.BitLen() > 64 && g.pct(perturb) {
+		// a wallet that adds the fee up in 64 bits
+		fee.And(fee, new(big.Int).SetUint64(^uint64(0)))
+		w.Fault("fee.wrapped_to_64_bits")
 	} else if g.pct(perturb) {
 		switch g.R.Intn(6) {
 		case 0:
